@@ -155,6 +155,24 @@ def run(ctx):
                                                         "harness": "codegen_h codegen"})
             elif ("ok" in r) != ("ok" in pr.get("result", {})) and "cfg" in pr:
                 note_model_mismatch(ctx, "G/codegen accepts iff parser accepts", q, {"codegen": str(r)[:300], "parser": str(pr.get("result"))[:300]})
+    # ---- (c'') build helper: parse + every public query on projects incl. odd locale names
+    binb = cargo_build(ctx, "build_h")
+    if binb is not None:
+        odd = []
+        for name in ["not a locale", "e", "en--US", "x_y", "toolonglanguagetag", "en-", "123", "é", "en US", "EN-us"]:
+            odd.append({"op": "icu", "work": os.path.join(WORK, "c09b"),
+                        "cargo_toml": '[package]\nname = "p"\n[package.metadata.leptos-i18n]\ndefault = "en"\nlocales = ["en", %s]\n' % json.dumps(name),
+                        "files": [["locales/en.json", '{"a": "x"}'], [f"locales/{name}.json", '{"a": "y"}']]})
+        breqs = odd + [{"op": "icu", "work": os.path.join(WORK, "c09b"), "cargo_toml": q["cargo_toml"], "files": q["files"]} for q in reqs[: ctx.budget(300, 5000)]]
+        bres = run_lines_resilient(binb, breqs, timeout=3600)
+        for q, r in zip(breqs, bres):
+            k = "ok" if "keys" in r else ("err" if "parse_err" in r else "PANIC")
+            ctx.count("build_helper:" + k)
+            ctx.seen({"build": q["files"], "cfg": q["cargo_toml"]})
+            if "panic" in r or "crash" in r or isinstance(r.get("langids"), dict):
+                report_violation(ctx, "build-helper-panics", {"case": q, "impl": {k2: v for k2, v in r.items() if k2 != "per_option"},
+                                                             "expected_by_spec": "a result or a descriptive error, never a panic",
+                                                             "harness": "build_h icu (parse_at_dir, get_icu_keys, get_locales, get_locales_langids)"})
     # ---- (d) deep / long inputs in a subprocess with a timeout (stack depth is linear in the number of interpolations)
     deep = [("interp-chain-2000", "{{a}}" * 2000), ("comp-nest-500", "<b>" * 500 + "x" + "</b>" * 500), ("fk-chain-300", "$t(a)" * 300)]
     for name, s in deep:
